@@ -17,7 +17,7 @@ import (
 
 func init() {
 	Register(&World{Name: "batch", Episodes: true, Props: []string{"C11"}, Concurrent: true, Timed: true, MaxSteps: 6000, Run: batchWorld})
-	ExpectedProbes["batch"] = []string{"batchsize-huge", "long-source-abandoned", "source-hands-over-ready-items-without-looking-at-its-context", "underfilled-by-timer", "full-batch", "final-partial-batch", "close-with-producer-ahead", "next-cancelled-then-retried", "source-error-after-items", "close-before-any-next", "timer-flush-with-waiter"}
+	ExpectedProbes["batch"] = []string{"maxwait-forever", "batchsize-huge", "long-source-abandoned", "source-hands-over-ready-items-without-looking-at-its-context", "underfilled-by-timer", "full-batch", "final-partial-batch", "close-with-producer-ahead", "next-cancelled-then-retried", "source-error-after-items", "close-before-any-next", "timer-flush-with-waiter"}
 }
 
 type batchStep struct {
@@ -42,6 +42,9 @@ func batchWorld(r *R) {
 	}
 	maxWait := time.Duration(1+r.Choose(6, "maxwait")) * unit
 	switch r.Choose(16, "maxwait-edge") { // edge classes: no waiting at all
+	case 13:
+		maxWait = math.MaxInt64 // "never hand out an underfilled batch before the source has ended"
+		r.Probe("maxwait-forever")
 	case 14:
 		maxWait = 0
 		r.Probe("maxwait-zero")
@@ -139,6 +142,9 @@ func batchWorld(r *R) {
 	effWait := maxWait // what the timing oracles use: a negative wait is no wait
 	if effWait < 0 {
 		effWait = 0
+	}
+	if effWait > 1<<61 {
+		effWait = 1 << 61 // (so that instant + effWait does not overflow)
 	}
 	r.Logf("config: items=%d batchSize=%d maxWait=%v func=%v srcErrAt=%d closeAfter=%d nexts strictTiming=%v", n, batchSize, maxWait, useFunc, src.ErrAt, closeAt, strictTiming)
 
